@@ -714,6 +714,11 @@ pub fn run(prop: &str, tier: &str) -> i32 {
         eprintln!("  {}", labels.last().unwrap());
         total = total.merge(acc);
         let t0 = std::time::Instant::now();
+        let acc = crate::checks::lifted::prepared(&run, &docs::panel(), mode);
+        labels.push(format!("prepared queries ({} queries parsed once, each over the panel forwards and backwards): {} evaluations, {:.1}s", crate::checks::lifted::PREPARED.len(), acc.transitions, t0.elapsed().as_secs_f64()));
+        eprintln!("  {}", labels.last().unwrap());
+        total = total.merge(acc);
+        let t0 = std::time::Instant::now();
         let acc = size_ladder(&run, run.thorough(), mode);
         labels.push(format!("size ladder (arrays / objects of 15..257 (thorough ..4097) children, size-derived queries): {} queries, {:.1}s", acc.transitions, t0.elapsed().as_secs_f64()));
         eprintln!("  {}", labels.last().unwrap());
